@@ -815,4 +815,3 @@ func fmtCounts(m map[byte]int) string {
 	return s
 }
 
-func (w *world) scenarioFraming() {}
